@@ -115,6 +115,7 @@ var (
 	tstate [MaxTasks]int32
 	tblock [MaxTasks]uintptr
 	tholds [MaxTasks]int32
+	tbsite [MaxTasks]int32 // statement site at which the task blocked
 	tpanic [MaxTasks]interface{}
 	tstack [MaxTasks]string
 	tfn    [MaxTasks]func()
@@ -232,6 +233,21 @@ func min32(a, b int32) int32 {
 		return a
 	}
 	return b
+}
+
+// BlockedSites returns, per task, the statement site at which it is blocked on
+// a mutex (-1 if it is not blocked).
+//
+//go:norace
+func BlockedSites() []int32 {
+	out := make([]int32, ntasks)
+	for i := int32(0); i < ntasks; i++ {
+		out[i] = -1
+		if tstate[i] == stBlocked {
+			out[i] = tbsite[i]
+		}
+	}
+	return out
 }
 
 // Trace returns the recorded context switches of the last run.
@@ -408,6 +424,7 @@ func Lock(m *sync.Mutex) {
 		st.Blocked++
 		tstate[cur] = stBlocked
 		tblock[cur] = uintptr(unsafe.Pointer(m))
+		tbsite[cur] = lastSite
 		decide(true, 3)
 	}
 	tholds[cur]++
@@ -436,8 +453,43 @@ func wake(addr uintptr) {
 	}
 }
 
-// RLock, RUnlock, WLock, WUnlock: the same for sync.RWMutex.
-//
+// RLock, RUnlock, WLock, WUnlock: the same for sync.RWMutex. The model keeps
+// Go's writer preference: once a writer waits, new readers block (that is what
+// turns a recursive read lock into a deadlock). The real TryRLock/TryLock is
+// taken whenever the model grants the lock, so the race detector sees the real
+// acquire/release edges.
+
+const maxRW = 64
+
+var (
+	rwAddr    [maxRW]uintptr
+	rwReaders [maxRW]int32
+	rwWriter  [maxRW]bool
+	rwWaitW   [maxRW]int32
+	nRW       int32
+	twaitW    [MaxTasks]bool
+)
+
+//go:norace
+func rwEntry(m *sync.RWMutex) int32 {
+	a := uintptr(unsafe.Pointer(m))
+	for i := int32(0); i < nRW; i++ {
+		if rwAddr[i] == a {
+			return i
+		}
+	}
+	if nRW >= maxRW {
+		abort("too-many-rwmutexes")
+	}
+	i := nRW
+	nRW++
+	rwAddr[i] = a
+	rwReaders[i] = 0
+	rwWriter[i] = false
+	rwWaitW[i] = 0
+	return i
+}
+
 //go:norace
 func RLock(m *sync.RWMutex) {
 	if !active || coarse {
@@ -446,12 +498,15 @@ func RLock(m *sync.RWMutex) {
 	}
 	st.Locks++
 	edge(1)
-	for !m.TryRLock() {
+	e := rwEntry(m)
+	for rwWriter[e] || rwWaitW[e] > 0 || !m.TryRLock() {
 		st.Blocked++
 		tstate[cur] = stBlocked
 		tblock[cur] = uintptr(unsafe.Pointer(m))
+		tbsite[cur] = lastSite
 		decide(true, 3)
 	}
+	rwReaders[e]++
 	tholds[cur]++
 }
 
@@ -461,6 +516,8 @@ func RUnlock(m *sync.RWMutex) {
 	if !active || coarse {
 		return
 	}
+	e := rwEntry(m)
+	rwReaders[e]--
 	wake(uintptr(unsafe.Pointer(m)))
 	tholds[cur]--
 	edge(2)
@@ -474,12 +531,23 @@ func WLock(m *sync.RWMutex) {
 	}
 	st.Locks++
 	edge(1)
-	for !m.TryLock() {
+	e := rwEntry(m)
+	for rwWriter[e] || rwReaders[e] > 0 || !m.TryLock() {
+		if !twaitW[cur] {
+			twaitW[cur] = true
+			rwWaitW[e]++
+		}
 		st.Blocked++
 		tstate[cur] = stBlocked
 		tblock[cur] = uintptr(unsafe.Pointer(m))
+		tbsite[cur] = lastSite
 		decide(true, 3)
 	}
+	if twaitW[cur] {
+		twaitW[cur] = false
+		rwWaitW[e]--
+	}
+	rwWriter[e] = true
 	tholds[cur]++
 }
 
@@ -489,6 +557,8 @@ func WUnlock(m *sync.RWMutex) {
 	if !active || coarse {
 		return
 	}
+	e := rwEntry(m)
+	rwWriter[e] = false
 	wake(uintptr(unsafe.Pointer(m)))
 	tholds[cur]--
 	edge(2)
@@ -630,6 +700,10 @@ func setup(fns []func()) {
 	}
 	turn = -1
 	cur = -1
+	nRW = 0
+	for i := range twaitW {
+		twaitW[i] = false
+	}
 }
 
 //go:norace
